@@ -1,3 +1,4 @@
+import MobiusModel.PathAlg
 /-!
   Spec.Governing — what the Hotline protocol says, independent of the Go code:
 
@@ -157,6 +158,38 @@ inductive Place
   | dropBox   -- name contains "drop box"
   | plain     -- any other folder, including the root
 deriving DecidableEq, Repr
+
+/-! #### which folder a path field addresses, and what kind of folder that is
+
+  A request acts on the folder `ReadPath` resolves the path items to: every item is joined to the rooted path
+  so far and the result is cleaned (an item may itself contain `/`, `.`, `..` or be empty).  The kind of folder
+  that governs uploads and listings is the kind of THAT folder — not of the last raw item. -/
+
+/-- the components (below the file root) of the folder a list of path items addresses -/
+def addressedFolder (items : List Bytes) : List PathAlg.Comp := items.foldl PathAlg.joinRooted []
+
+/-- ASCII lower-casing (the two folder-kind patterns are ASCII; no non-ASCII rune lower-cases into them) -/
+def lowerByte (b : UInt8) : UInt8 := if 65 ≤ b.toNat ∧ b.toNat ≤ 90 then b + 32 else b
+
+/-- `strings.Contains` on bytes -/
+def hasSub (pat : Bytes) : Bytes → Bool
+  | [] => pat.isEmpty
+  | b :: bs => pat.isPrefixOf (b :: bs) || hasSub pat bs
+
+def patDropBox : Bytes := "drop box".toUTF8.toList
+def patUpload : Bytes := "upload".toUTF8.toList
+
+/-- kind of a folder by its own name: contains "drop box" / "upload" (any case), else plain -/
+def placeOfName (name : Bytes) : Place :=
+  if hasSub patDropBox (name.map lowerByte) then .dropBox
+  else if hasSub patUpload (name.map lowerByte) then .uploads
+  else .plain
+
+/-- kind of the folder a path field addresses; the file root itself is a plain folder -/
+def placeOfItems (items : List Bytes) : Place :=
+  match (addressedFolder items).getLast? with
+  | none => .plain
+  | some name => placeOfName name
 
 /-- one sub-request of the multi-user editor (transaction 349) -/
 inductive UserItem
